@@ -297,8 +297,6 @@ example : trace (run gaussianCp exProgs exOutc exArgs (fresh .gaussian []) empty
             ("BSgate", true, [2, 0])] := by
   decide +kernel
 
-/-- reset: after a run on three modes the engine has a previous register, samples and a run list;
-reset clears them -/
 /-- error coincidence: the example programs satisfy the extra hypotheses of `concat_success_iff_partial`
 (can follow, bound names known everywhere, open dependencies inside the register), and a session in which
 both ways fail together: binding an unknown name -/
@@ -308,6 +306,8 @@ example : (exProgs 1).initRegs = (exProgs 0).regs ∧
     (trace (run gaussianCp exProgs exOutc [("b", 1)] (fresh .gaussian []) emptyWorld [2])).isNone := by
   decide +kernel
 
+/-- reset: after a run on three modes the engine has a previous register, samples and a run list;
+reset clears them -/
 def afterRun : Option (Eng × World) :=
   (run gaussianCp exProgs exOutc exArgs (fresh .gaussian [("cutoff_dim", 5)]) emptyWorld [2]).toOption.map
     fun r => (r.1, r.2.1)
